@@ -168,28 +168,8 @@ theorem jsStrs_texts (fm gv : Bool) (ind : Nat) : ∀ (ns : List Node) (ts : Lis
       simp only [jsStrs, hx, ih, bind, Except.bind, pure, Except.pure, Name.str]
 
 /-- a node that is the image of a non-symbol expression is not a Symbol -/
-theorem emb_not_sym (e : Expr) (x : Node) (h : Emb e x) (hs : ∀ s, e ≠ .sym s) : x.symName? = none := by
-  cases e with
-  | int k => obtain ⟨p, rfl⟩ := h; rfl
-  | str s => obtain ⟨p, rfl⟩ := h; rfl
-  | sym s => exact absurd rfl (hs s)
-  | var k v => cases k <;> (obtain ⟨p, rfl⟩ := h; rfl)
-  | un op a => obtain ⟨p, y, rfl, _⟩ := h; rfl
-  | bin op a b => obtain ⟨p, y, z, rfl, _⟩ := h; rfl
-  | field a => obtain ⟨p, y, rfl, _⟩ := h; rfl
-  | call f as => obtain ⟨p, p', wr, ops, rfl, _⟩ := h; rfl
-  | list as => obtain ⟨p, p', ops, rfl, _⟩ := h; rfl
-  | key v => obtain ⟨p, rfl⟩ := h; rfl
-  | movie v => rcases h with ⟨p, rfl⟩ | ⟨p, q, o, rfl, _⟩ <;> rfl
-  | the t k as =>
-    cases as with
-    | cons y ys => cases t <;> exact absurd h (by simp [Emb])
-    | nil =>
-      cases t with
-      | sys => simp only [Emb] at h; obtain ⟨p, q, o, rfl, _⟩ := h; rfl
-      | special => simp only [Emb] at h; obtain ⟨p, rfl⟩ := h; rfl
-      | _ => exact absurd h (by simp [Emb])
-  | _ => exact absurd h (by simp [Emb])
+theorem emb_not_sym (e : Expr) (x : Node) (h : Emb e x) (hs : ∀ s, e ≠ .sym s) : x.symName? = none :=
+  emb_symName' e x h hs   -- agent-link's lemma (DrxProofs/LinkText.lean): follows every extension of `Emb`
 
 /-- texts of an argument list, in source order -/
 def txL (c : JCtx) : List Expr → List Str
